@@ -10,6 +10,7 @@ import json, os, re, shutil, subprocess, sys
 
 ROOT = "/verif"
 ENV = dict(os.environ, CARGO_NET_OFFLINE="true")
+SEEDDIR = os.environ.get("SEED_DIR", "seeded")      # SEED_DIR=benign: the behaviour-preserving rewrites (every check must stay quiet)
 
 
 def sh(cmd, cwd=None):
@@ -18,7 +19,7 @@ def sh(cmd, cwd=None):
 
 
 def intake(name, wt, prop):
-    d = os.path.join(ROOT, "seeded", name)
+    d = os.path.join(ROOT, SEEDDIR, name)
     os.makedirs(d, exist_ok=True)
     for f in ("patch.diff", "demo.rs", "meta.json"):
         shutil.copy(os.path.join(wt, "seeded", f), os.path.join(d, f))
@@ -41,11 +42,12 @@ def intake(name, wt, prop):
     demo_with = out.strip()
     ran.append("with change: cargo test -p purl --test seeded_demo -> " + demo_with)
     # 2. without the change: demo passes
-    sh("git stash -- purl/src", cwd=wt)
+    # (not `git stash`: the stash is shared by all worktrees of a repository, and intakes run side by side)
+    sh("git apply -R %s" % os.path.join(d, "patch.diff"), cwd=wt)
     rc, out = sh("cargo test --offline -p purl%s --test seeded_demo 2>&1 | grep 'test result' | tail -1" % feat, cwd=wt)
     demo_without = out.strip()
     ran.append("without change: cargo test -p purl --test seeded_demo -> " + demo_without)
-    sh("git stash pop", cwd=wt)
+    sh("git apply %s" % os.path.join(d, "patch.diff"), cwd=wt)
     os.unlink(os.path.join(wt, "purl", "tests", "seeded_demo.rs"))
     ok = suite_ok and ("FAILED" in demo_with or "failed" in demo_with and " 0 failed" not in demo_with) and " 0 failed" in demo_without and "ok" in demo_without
     meta.update({"name": name, "property": prop, "verified": {"existing_suite_passes_with_change": suite_ok, "demo_with_change": demo_with,
@@ -80,7 +82,7 @@ def drop_rig(tag="s"):
 
 
 def run(name, props, no_proof=False, rig=None):
-    d = os.path.join(ROOT, "seeded", name)
+    d = os.path.join(ROOT, SEEDDIR, name)
     meta = json.load(open(os.path.join(d, "meta.json")))
     props = props or [meta["property"]]
     repo, root, env = "/repo", ROOT, ENV
